@@ -566,13 +566,21 @@ func (s *simscreen) GetTitle() string {
 
 func (s *simscreen) SetClipboard(data []byte) {
 	s.Lock()
-	s.clipboard = data
+	// (a copy: the slice is the caller's again when this returns, as it is
+	// on the terminal screen, which encodes it on the spot)
+	s.clipboard = append([]byte(nil), data...)
+	if data == nil {
+		s.clipboard = nil
+	}
 	s.Unlock()
 }
 
 func (s *simscreen) GetClipboard() {
 	s.Lock()
 	data := s.clipboard
+	if data != nil {
+		data = append([]byte{}, data...)
+	}
 	s.Unlock()
 	if data != nil {
 		ev := NewEventClipboard(data)
@@ -583,5 +591,8 @@ func (s *simscreen) GetClipboard() {
 func (s *simscreen) GetClipboardData() []byte {
 	s.Lock()
 	defer s.Unlock()
-	return s.clipboard
+	if s.clipboard == nil {
+		return nil
+	}
+	return append([]byte{}, s.clipboard...)
 }
